@@ -9,6 +9,8 @@ def run(tier, seed):
     import contracts.inline as CI
     deductive(rep, "C09", CI.C09_FUNCS, "contracts.inline")
     deductive(rep, "C09", ["markdown_it.helpers.parse_link_title.parseLinkTitle"], "contracts.helpers")
+    import contracts.rxrules as RXR
+    deductive(rep, "C09", [RXR.QE], "contracts.rxrules")
     import contracts.textjoin as TJ
     deductive(rep, "C09", TJ.FUNCS, "contracts.textjoin")
     from .. import reads, casefold
